@@ -149,13 +149,6 @@ def run_property(prop, tier, seed, replay=None):
             log(audit.get("log", "")[-2000:])
     obligations = len(audit["theorems"]) if audit["theorems"] else sum(len(core.theorems_of(m)) for m in modules)
     discharged = len([t for t in audit["theorems"] if t in audit["axioms"] and t not in audit["bad"]]) if proof_ok or audit["axioms"] else 0
-    if tier == "thorough" and ok:
-        rc, lo = core.sh(["lake", "env", "leanchecker"] + modules, cwd=core.LEAN)
-        notes.append(f"leanchecker rc={rc}")
-        if rc != 0:
-            proof_ok = False
-            problems.append("leanchecker-failed")
-            log(lo[-2000:])
 
     # 1b. translator tie: regenerate the observers from the current source, re-check the tie theorems
     tie_broken = {}
@@ -182,6 +175,15 @@ def run_property(prop, tier, seed, replay=None):
             audit["theorems"] += core.theorems_of(m)       # obligations that are NOT discharged now
         obligations = len(audit["theorems"])
         discharged = len([t for t in audit["theorems"] if t in audit["axioms"] and t not in audit["bad"]])
+
+    if tier == "thorough" and ok:
+        lc_mods = modules + [m for m in sorted(prop.tie_modules) if m not in tie_broken]
+        rc, lo = core.sh(["lake", "env", "leanchecker"] + lc_mods, cwd=core.LEAN)
+        notes.append(f"leanchecker rc={rc} ({len(lc_mods)} modules)")
+        if rc != 0:
+            proof_ok = False
+            problems.append("leanchecker-failed")
+            log(lo[-2000:])
 
     # 2. harness against the current /repo
     hok, hout, th = core.build_harness()
